@@ -570,3 +570,26 @@ func codecRoots(c *Ctx, pkgRel string, wantReq bool) []*ssa.Function {
 	}
 	return roots
 }
+
+func init() {
+	ctl := func(c *Ctx, r *Report, prop string) {
+		fire := func(name string) bool {
+			_, _, fs := sharedStateScan(c, []*ssa.Function{c.fnMust("cshared", name)})
+			return len(fs) > 0
+		}
+		r.controls[prop+"/shared-state-scratch-buffer"] = fire("SharedScratch")
+		r.controls[prop+"/shared-state-lazy-unsynchronised"] = fire("LazyUnsynchronised")
+		r.controls[prop+"/shared-state-pool-leak"] = fire("PoolLeaks")
+		r.controls[prop+"/shared-state-negative-controls-silent"] = !fire("OnceGuarded") && !fire("Counted") && !fire("PoolPrivate")
+	}
+	for _, p := range []string{"C01", "C02", "C03", "C09", "C12", "C13", "C14", "C16"} {
+		prop := p
+		prev := controls[prop]
+		controls[prop] = func(c *Ctx, r *Report) {
+			if prev != nil {
+				prev(c, r)
+			}
+			ctl(c, r, prop)
+		}
+	}
+}
